@@ -84,7 +84,7 @@ pub fn run(rep: &mut Rep) {
             if via_auth {
                 rep.add("resumptions_through_authorize", 1);
             }
-            let resumed = w.resume_full(ResumeOpts { secs_ago: ago, sei: Some(interval), connack_sei: over, receive_max: rmax, max_packet: mps, expect_expired: exp, plain: false, via_auth });
+            let resumed = w.resume_full(ResumeOpts { secs_ago: ago, sei: Some(interval), connack_sei: over, receive_max: rmax, max_packet: mps, expect_expired: exp, plain: false, via_auth, trailing: (acts.len() % 2) as u8 });
             if rmax.is_some() {
                 rep.add("resumptions_with_connack_receive_maximum", 1);
                 if !exp && (pubs.len() + rels.len()) as u32 > rmax.unwrap() as u32 {
@@ -116,7 +116,7 @@ pub fn run(rep: &mut Rep) {
                 w.eof();
                 w.settle_check();
                 let (p2, r2) = w.unfinished();
-                let again = w.resume_full(ResumeOpts { secs_ago: if interval == NEVER { 5 } else { 1 }, sei: Some(interval), connack_sei: over, receive_max: rmax, max_packet: mps, expect_expired: false, plain: false, via_auth: false });
+                let again = w.resume_full(ResumeOpts { secs_ago: if interval == NEVER { 5 } else { 1 }, sei: Some(interval), connack_sei: over, receive_max: rmax, max_packet: mps, expect_expired: false, plain: false, via_auth: false, trailing: 0 });
                 rep.add("second_resumptions", 1);
                 rep.add("publishes_expected_resent", p2.len() as i64);
                 rep.add("pubrels_expected_resent", r2.len() as i64);
